@@ -185,9 +185,8 @@ theorem ext_upolyAdditive_define {q p n : Nat} {g : List Nat} (hq : q < 2 ^ 64)
   `C15_full` of `Props/C15.lean` with the bounds it lacks — cardinality `q < 2^64` (the `Define`
   lemmas of C03/C01 are stated for machine-word cardinalities), at most `2^63` coefficients of a
   univariate polynomial (`strconv.ParseInt` on the exponent) — and with the bivariate part
-  restricted to what is proved: clause 1 in the printers' own notation, clause 2 without ideal.
-  What this omits relative to `C15_full` is exactly `C15Full_remaining` (`BNotations` for `N ≠ {}`,
-  `BAddQuot`). -/
+  restricted to what is proved: clause 1 (every notation), clause 2 without ideal.
+  What this omits relative to `C15_full` is exactly `C15Full_remaining` (`BAddQuot`). -/
 
 /-- the proved part of `BPolyRoundTrip` -/
 def BPolyRoundTripP {α : Type} (S : FieldSpec α) : Prop :=
@@ -196,8 +195,9 @@ def BPolyRoundTripP {α : Type} (S : FieldSpec α) : Prop :=
     (∀ w, S.ownVar = some w → Unconfusable x w ∧ Unconfusable y w) →
     (∀ (ideal : Option (List (BPoly α))) f,
       BValid S { F := S.F, ord := ord, varNames := (x, y), ideal := ideal } f →
+      ∀ N : Notation, N.ok →
       ∃ g, BPoly.parse { F := S.F, ord := ord, varNames := (x, y), ideal := ideal }
-          (BPoly.toStr { F := S.F, ord := ord, varNames := (x, y), ideal := ideal } f) = .ok (some g) ∧
+          (bToStrN N { F := S.F, ord := ord, varNames := (x, y), ideal := ideal } f) = .ok (some g) ∧
         BPoly.equal S.F f g = true) ∧
     (∀ f₁ f₂, BValid S { F := S.F, ord := ord, varNames := (x, y), ideal := none } f₁ →
       BValid S { F := S.F, ord := ord, varNames := (x, y), ideal := none } f₂ →
@@ -218,9 +218,8 @@ theorem prime_fieldRoundTripB {p : Nat} (hq : p < 2 ^ 64) (hd : Define.prime p =
     exact ⟨fun f hf hlen N hN => prime_upoly_notation hp h32 hv mod hf hlen N hN,
       fun f₁ f₂ h1 h2 l1 l2 => prime_upoly_additive hp h32 hv mod hm h1 h2 l1 l2⟩
   · intro x y ord hx hy hxy _
-    refine ⟨fun ideal f hf => ?_, fun f₁ f₂ h1 h2 => ?_⟩
-    · have := prime_bpoly_roundtrip hp h32 hx hy hxy ord ideal hf
-      rwa [bToStrN_default] at this
+    refine ⟨fun ideal f hf N hN => ?_, fun f₁ f₂ h1 h2 => ?_⟩
+    · exact prime_bpoly_notation hp h32 hx hy hxy ord ideal hf N hN
     · exact prime_bpoly_additive hp h32 hx hy hxy ord none h1 h2 (fun gs h => by cases h)
 
 theorem bin_fieldRoundTripB {q n m : Nat} {w : String} (hq : q < 2 ^ 64)
@@ -240,9 +239,8 @@ theorem bin_fieldRoundTripB {q n m : Nat} {w : String} (hq : q < 2 ^ 64)
       fun f₁ f₂ k1 k2 l1 l2 => bin_upoly_additive L hL hw hn hv hvw mod hm k1 k2 l1 l2⟩
   · intro x y ord hx hy hxy hun
     obtain ⟨hxw, hyw⟩ := hun w rfl
-    refine ⟨fun ideal f hf => ?_, fun f₁ f₂ k1 k2 => ?_⟩
-    · have := bin_bpoly_roundtrip L hL hw hn hx hy hxy hxw hyw ord ideal hf
-      rwa [bToStrN_default] at this
+    refine ⟨fun ideal f hf N hN => ?_, fun f₁ f₂ k1 k2 => ?_⟩
+    · exact bin_bpoly_notation L hL hw hn hx hy hxy hxw hyw ord ideal hf N hN
     · exact bin_bpoly_additive L hL hw hn hx hy hxy hxw hyw ord none k1 k2
         (fun gs h => by cases h)
 
@@ -265,9 +263,8 @@ theorem ext_fieldRoundTripB {q p n : Nat} {g : List Nat} (hq : q < 2 ^ 64)
       fun f₁ f₂ k1 k2 l1 l2 => ext_upoly_additive M hn63 L hL hv hva mod hm k1 k2 l1 l2⟩
   · intro x y ord hx hy hxy hun
     obtain ⟨hxw, hyw⟩ := hun "a" rfl
-    refine ⟨fun ideal f hf => ?_, fun f₁ f₂ k1 k2 => ?_⟩
-    · have := ext_bpoly_roundtrip M hn63 L hL hx hy hxy hxw hyw ord ideal hf
-      rwa [bToStrN_default] at this
+    refine ⟨fun ideal f hf N hN => ?_, fun f₁ f₂ k1 k2 => ?_⟩
+    · exact ext_bpoly_notation M hn63 L hL hx hy hxy hxw hyw ord ideal hf N hN
     · exact ext_bpoly_additive M hn63 L hL hx hy hxy hxw hyw ord none k1 k2
         (fun gs h => by cases h)
 
@@ -275,7 +272,7 @@ theorem ext_fieldRoundTripB {q p n : Nat} {g : List Nat} (hq : q < 2 ^ 64)
     functions of the model return for a cardinality `q < 2^64`, and every admissible renaming of a
     binary field's variable: element round trip; univariate round trip in EVERY notation and
     additivity (at most `2^63` coefficients), in every ring and quotient ring; bivariate round
-    trip in the printers' notation for every order and ideal; bivariate additivity without ideal. -/
+    trip in EVERY notation for every order and ideal; bivariate additivity without ideal. -/
 theorem C15_full_bounded_partial :
     (∀ p, p < 2 ^ 64 → Define.prime p = .ok (.prime p) → FieldRoundTripB (primeSpec p)) ∧
     (∀ q n m v, q < 2 ^ 64 → Define.bin Gen.dbText q = .ok (.bin n m) → AdmissibleName v →
